@@ -57,10 +57,10 @@ def case_term(d) -> str:
 def ncase_term(d) -> str:
     i = d["inner"]
     return ("{| n_outer := %s; n_inner_params := %s; n_inner_defaults := [%s]; n_inner_pos := [%s]; n_inner_kw := [%s]; "
-            "n_inner_tbl := %s; n_neg := %s |}") % (
+            "n_inner_tbl := %s; n_neg := %s; n_mode := %s |}") % (
         case_term(d), core.zlist(i["params"]), "; ".join(f"({p}, {core.zlit(v)})" for p, v in i["defaults"]),
         "; ".join(arg_term(a) for a in i["pos"]), "; ".join(f"({core.zlit(k)}, {arg_term(a)})" for k, a in i["kw"]),
-        core.zlist(i["tbl"]), "true" if d.get("neg") else "false")
+        core.zlist(i["tbl"]), "true" if d.get("neg") else "false", int(d.get("share_mode", 0)))
 
 
 # ------------------------------------------------------------------ implementation side
@@ -209,6 +209,17 @@ def _run_impl(d) -> Any:
     if d.get("neg"):
         from krrood.entity_query_language.entity import not_
         c = not_(c)
+    mode = d.get("share_mode", 0)
+    if inner and mode:
+        # the inner call OBJECT g is used again: as a condition next to the call it is an operand of (1), or in both
+        # or_ branches, once under not_ (2)
+        from krrood.entity_query_language.entity import not_, and_, or_
+        g = variables[NEST]
+        if mode == 1:
+            c = and_(g, c)
+        else:
+            gv = sorted({v for a in inner["pos"] + [a for _, a in inner["kw"]] for v in arg_vars(a)})[0]
+            c = or_(and_(g, c), and_(not_(g), getattr(variables[gv], "a") >= 0))
     conds = [getattr(variables[x], "a") >= 0 for x in d["pre"]] + [c]
     sel = [variables[x] for x in d["sel"]]
     q = an(entity(sel[0], *conds)) if len(sel) == 1 else an(set_of(sel, *conds))
@@ -425,12 +436,20 @@ def gen_nested(tier: str, seed: int) -> List[dict]:
                                 d["pos"] = args[:len(d["pos"])]
                                 d["kw"] = [[p, a] for (p, _), a in zip(d["kw"], args[len(d["pos"]):])]
                                 d["neg"] = rng.chance(0.25)
+                                ivs = {v for a in iargs for v in arg_vars(a)}
+                                ovs = {v for a in args for v in arg_vars(a)} - {NEST}
+                                r = rng.randint(0, 9)
+                                d["share_mode"] = 0 if r < 5 else 1 if r < 8 else 2
+                                if d["share_mode"] == 2 and not ovs <= ivs:
+                                    d["share_mode"] = 1
+                                if d["share_mode"] == 2:
+                                    d["neg"] = False
                                 used = sorted(({v for a in args for v in arg_vars(a)} - {NEST}) | {v for a in iargs for v in arg_vars(a)} | set(d["pre"]))
                                 _, doms = gen_world(rng, 2)
                                 doms = {x: [i for i in dom if i < len(d["objs"])] or [0] for x, dom in doms.items()}
                                 d["doms"] = {str(v): d["doms"].get(str(v), doms[str(v)]) for v in used}
                                 d["sel"] = used if (len(used) < 2 or rng.chance(0.8)) else [rng.choice(used)]
-                                if d["neg"]:
+                                if d["neg"] or d["share_mode"] == 2:
                                     d["pre"] = sorted(set(d["pre"]) | set(used))   # keep negation away from open variables (C01's concern)
                                 out.append(d)
     return out
@@ -630,6 +649,7 @@ def run(tier: str, seed: int, replay=None) -> int:
     ncases = [Case(term=ncase_term(d), impl=run_impl(d), descr=d, snippet=snippet(d), key=json.dumps(d, sort_keys=True)) for d in nested]
     ncodes = core.coq_codes(PROP, HEADER_SPEC, "ncase", "case_code_nested", [(c.term, core.sx(c.impl)) for c in ncases],
                             chunk=250, tag="nest") if ncases else []
+    dist.update({"nested_shared_call_object": {m: sum(1 for d in nested if d.get("share_mode", 0) == m) for m in (0, 1, 2)}})
     dist.update({"nested": len(ncases), "nested_inner_result_falsy_somewhere": 0, "nested_under_not": 0, "nested_inner_predicate": 0,
                  "nested_shares_variable_with_outer": 0})
     nbad = []
